@@ -183,6 +183,7 @@ def run(rec):
                           ("euler", ("grid", 2, 1, 1, 0), "tauleap", ("graph", "pair"), "auto")])
     from . import C14
     C14.gsd_progress(rec)
+    C14.gsd_progress(rec, 2, 2)        # two species: the weights of the correction draw must be read with the right stride
     from . import C10_py
     C10_py.run(rec)
 
